@@ -7,7 +7,8 @@ from common import run_fjv, workdir, pmap, log
 import crash as C
 
 LEVEL = "fault_enumeration"
-COQ_TARGETS = ()
+COQ_TARGETS = ("props/C02.vo",)
+THEOREMS = ["C02_acknowledged_bytes_reach_the_os", "C02_journal_recovers_acknowledged_prefix"]
 
 
 def allowed_states(prog, states, last_line):
@@ -99,6 +100,8 @@ def crash_workload(args):
 
 
 def run(rep, tier, seed, build):
+    from common import proof_audit
+    obl, dis, pproblems = proof_audit("props/C02.v", THEOREMS, build["coq"])
     n = 24 if tier == "quick" else 300
     results = pmap(crash_workload, [(i, seed, tier) for i in range(n)])
     calls = collections.Counter()
@@ -121,7 +124,10 @@ def run(rep, tier, seed, build):
                              "acknowledged operation or after the operation in flight; non-trivial workload = > 5 events",
                         samples=[r_["sample"] for r_ in results if r_.get("sample")][:3], workloads=n,
                         crash_points=runs, torn_write_points=sum(r_["torn"] for r_ in results),
-                        syscall_histogram=dict(calls), disagreements_checked=len(bad), exhaustive=(tier != "quick"))
+                        syscall_histogram=dict(calls), disagreements_checked=len(bad), exhaustive=(tier != "quick"),
+                        journal_theorems=THEOREMS, journal_theorems_discharged=dis, journal_theorem_problems=pproblems)
+    if pproblems and not rep.violations:
+        rep.violation("# C02: journal theorems no longer check\n" + "\n".join(pproblems) + "\n", suffix="no-failing-input-found")
     rep.assumptions = ["crash model: process death (kill) — everything handed to the OS by write() survives; power loss is C09",
                        "workloads start after Database::open has returned"]
 
